@@ -250,8 +250,29 @@ def run(check, repo: Repo) -> None:
                  fail_detail="pass 1 does not read self._vbf_fourier[vbf_index_mapping[batch]] / write fourier_factor[batch]")
     t2 = unparse(ast.Module(body=loops[1].body, type_ignores=[]))
     ok = f"ff = fourier_factor[{bidx}]" in t2 and f"fourier_factor[{bidx}] = torch.fft.ifft2(ff)" in t2
-    check.decide(ok, "C04-R1", "reconstruct[pass 2]: each batch is read from and written back to its own rows", "", mod.line(loops[1]),
-                 fail_detail="pass 2 does not normalise fourier_factor[batch] in place")
+    view_form = f"ff = fourier_factor[{bidx}[0]:{bidx}[-1] + 1]" in t2 and ("ff.copy_(torch.fft.ifft2(ff))" in t2 or "ff[:] = torch.fft.ifft2(ff)" in t2 or "ff[...] = torch.fft.ifft2(ff)" in t2)
+    if not ok and view_form:
+        # a slab view [first : last + 1] addresses exactly the batch's rows iff every batch is a run of consecutive indices: decided on SimpleBatcher.__iter__ — unshuffled
+        # batches must be unit-stride slices `order[i : i + size]` of the index range, not strided ones `order[i::k]`
+        _bm, it_fn = repo.func("quantem.diffractive_imaging.ptycho_utils:SimpleBatcher.__iter__")
+        ys = [y.value for y in ast.walk(it_fn) if isinstance(y, ast.Yield) and y.value is not None]
+        strided = [y for y in ys if isinstance(y, ast.Subscript) and isinstance(y.slice, ast.Slice) and y.slice.step is not None]
+        unit = [y for y in ys if isinstance(y, ast.Subscript) and isinstance(y.slice, ast.Slice) and y.slice.step is None and y.slice.lower is not None and y.slice.upper is not None]
+        if strided:
+            check.violated("C04-R1", "reconstruct[pass 2]: each batch is read from and written back to its own rows",
+                           f"pass 2 normalises the slab `fourier_factor[first:last+1]` of each batch, but SimpleBatcher yields strided batches (`{unparse(strided[0])[:50]}`): the slabs of "
+                           f"interleaved batches overlap, rows are normalised and inverse-transformed several times — the two-pass kernels depend on max_batch_size",
+                           mod.line(loops[1]), definite=True)
+            ok = None
+        elif unit and len(unit) == len(ys):
+            ok = True
+        else:
+            raise AnalysisError("reconstruct[pass 2]: slab view used, contiguity of SimpleBatcher's batches not decided")
+    if ok is None:
+        pass
+    else:
+        check.decide(ok, "C04-R1", "reconstruct[pass 2]: each batch is read from and written back to its own rows", "", mod.line(loops[1]),
+                     fail_detail="pass 2 does not read fourier_factor[batch] / write the inverse transform back to fourier_factor[batch]")
     kt = unparse(ker)
     ok = "ind_i = bf.bf_inds_i[batch_idx]" in kt and "ind_j = bf.bf_inds_j[batch_idx]" in kt and "grad_k[batch_idx]" in kt
     check.decide(ok, "C04-R1", "_return_kernel_contributions: detector coordinates and parallax gradients are taken at the batch's own pixels", "", mod.line(ker),
